@@ -786,6 +786,8 @@ def _run(ck, cfg, tier, binary, opts=None):
                     return k, None
                 if 'expected_vs_observed' in ck.violations[k]['witness']:
                     attach_observed_dump(binary, ck.violations[k]['witness'])
+                if os.environ.get('XV_NOSHRINK'):
+                    return k, None
                 return k, (None if is_special(k) else shrink(binary, first_witness[k], k, pid=pid, base=base))
             except Exception as e:          # shrinking is a convenience, never a verdict
                 return k, None
